@@ -1,20 +1,30 @@
 """C14: interpolated powertrain predictions stay faithful to the underlying model."""
+import glob
+import json
 import os
 from lib import vf
 
-RULE_G = ("generic interpolators: deterministic sweeps (every grid value / midpoint / boundary / outside for 2..9 points, "
-          "constructor rejections, single-point axes, NaN) then random non-uniform dyadic grids (dims 1-4, 2-9 points per "
-          "axis, dyadic / arbitrary / multilinear tables), 6 queries per case drawn from 12 kinds; Interp1D/2D/3D and "
-          "InterpND built on the same data, Interpolator::interpolate and the direct .linear() compared bit for bit with "
-          "the FN model; the S line is the QN checker (convexity, exactness on grid points, rejection outside, ND = "
-          "specialised) applied to the implementation's outputs; non-trivial = at least one query that is not a plain "
-          "interior point (grid line, corner, boundary, outside, wrong length, 1 ulp from the boundary)")
+TOL = ("S-line tolerance: 1e-9 * (1 + |min| + |max| of the surrounding table values) (exactly 0 on grid points, where the "
+       "checker demands the table value itself). One blend a*(1-d)+b*d costs 4 roundings, a fraction 3, so an n-D "
+       "interpolation (n <= 4) accumulates < 60 roundings of relative size 2^-53 on intermediates bounded by the largest "
+       "surrounding value: < 1e-14 * max, five orders of magnitude inside the band; every seeded mutation moved the "
+       "result by >= 1e-3 relative")
+RULE_G = ("generic interpolators: deterministic sweeps (every grid value / midpoint / boundary / outside for 2..9 points in "
+          "1-D and 2-D, constructor rejections, single-point axes, NaN table / query) then random non-uniform dyadic grids "
+          "(dims 1-4, 2-9 points per axis, dyadic / arbitrary / multi-affine tables), 6 queries per case drawn from 12 kinds; "
+          "Interp1D/2D/3D and InterpND built on the same data, Interpolator::interpolate and the direct .linear() compared "
+          "bit for bit with the FN model (M line); the S line is the QN checker of Model/InterpRun.v (proved sound in "
+          "Props/C14.v section 7) applied to the implementation's outputs: in-range => Ok and within [min,max] of the "
+          "surrounding values, exact on grid points, out of range / wrong length => Err, multi-affine table => equal to "
+          "the function, ND = specialised; non-trivial = at least one query that is not a plain interior point "
+          "(grid line, corner, boundary, outside, wrong length, 1 ulp from the boundary). " + TOL)
 RULE_S = ("speed/grade model: the four bundled vehicle models through InterpolationSpeedGradeModel::new or "
           "load_prediction_model(ModelType::Interpolate), all model units, bins 2..9 per axis, 8 queries per case in every "
-          "speed/grade unit (inside, grid point, grid line, upper boundary, outside one/both axes, far outside); the model's "
-          "predictor is the underlying random forest sampled by the harness exactly as `new` samples it; bit-exact with the "
-          "FN model; S = QN checker: never Err, value at the clamped point between the 4 surrounding underlying values, equal "
-          "to the underlying value on grid points; non-trivial = a query that is not a plain interior point")
+          "speed/grade unit (inside, grid point, grid line, upper boundary, outside one/both axes, far outside, NaN/inf); "
+          "the model's predictor is the underlying random forest sampled by the harness exactly as `new` samples it; "
+          "bit-exact with the FN model (M line); S = QN checker: the axes have `bins` increasing points from the lower to "
+          "the upper bound, never Err, value at the clamped point between the 4 surrounding underlying values, equal to the "
+          "underlying value on grid points and grid lines; non-trivial = a query that is not a plain interior point")
 
 
 def classify(case, i, m, s):
@@ -24,12 +34,17 @@ def classify(case, i, m, s):
 def run(chk):
     chk.coverage["trusted_base"] = [
         "Coq 8.16.1 kernel + vm_compute + primitive floats (execution of the FN instance only)",
-        "hand-written model coq/Model/Interp.v (tied by this correspondence run)",
+        "hand-written model coq/Model/Interp.v (tied by this correspondence run, bit for bit)",
         "unit conversion of the query and the underlying random forest enter the model as functions whose values "
-        "the harness reads from the real code (SpeedUnit::convert, GradeUnit::convert, PredictionModelRecord::predict)",
+        "the harness reads from the real code (SpeedUnit::convert, GradeUnit::convert, PredictionModelRecord::predict); "
+        "in the theorems they are Section variables (arbitrary functions)",
         "Rust harness harness/src/bin/c14.rs and this driver"]
-    chk.assumptions = ["theorems are about exact rational arithmetic (QN); rounding, overflow, NaN are outside them",
-                       "grids strictly increasing with >= 2 points per axis (what the constructors validate, plus bins >= 2)"]
+    chk.assumptions = ["theorems are about exact rational arithmetic (QN); rounding, overflow, NaN are outside them "
+                       "(in binary64 the convexity bound can fail by one ulp; the S lines allow 1e-9 relative)",
+                       "grids strictly increasing with >= 2 points per axis (what the constructors validate, plus bins >= 2); "
+                       "single-point axes (usize underflow panic in the specialised interpolators) are exercised, not claimed",
+                       "continuity is proved as border agreement + a Lipschitz identity inside each cell, not as an "
+                       "epsilon-delta statement"]
     chk.proofs(extra_targets=["Model/InterpRun.vo"])
     binp = vf.build_harness("c14")
     quick = chk.tier == "quick"
@@ -41,6 +56,12 @@ def run(chk):
         r2 = vf.run_stream(binp, "sg", 120 if quick else 1500, chk.seed, os.path.join(chk.outdir, "sg"), replay=chk.replay)
         chk.add_stream(r2, RULE_S)
         vf.compare(chk, r2, classify=classify, binpath=binp)
+    if not chk.replay:
+        # regression corpus: inputs on which seeded mutations of the anchored code were caught
+        for k, f in enumerate(sorted(glob.glob(os.path.join(vf.ROOT, "corpus", "C14", "*.json")))):
+            stream = json.load(open(f)).get("stream", "interp")
+            rc = vf.run_stream(binp, stream, 1, chk.seed, os.path.join(chk.outdir, "corpus%d" % k), replay=f, shards=1)
+            vf.compare(chk, rc, classify=classify, binpath=binp, stream_label="corpus/" + os.path.basename(f))
     if chk.broken_obligation:
         chk.violation("broken-obligation", "proofs", {"obligations": chk.broken_obligation}, "does not check", "Qed",
                       found=False, key="obligation")
@@ -51,7 +72,6 @@ def _is(chk, stream):
     if not chk.replay:
         return True
     try:
-        import json
         v = json.load(open(chk.replay))
         return v.get("stream", stream) == stream
     except Exception:
